@@ -24,10 +24,11 @@ CONSTANTS
   MaxSaves,         \* bound on saves
   MaxEvents,        \* bound on CONF_CHANGED events
   Dev,              \* named deviations recorded as known findings ({} = what the property needs)
-  Pairs2            \* another controller's SETCONF may change two options at once (FALSE: one; a bound for model checking)
+  Pairs2,           \* another controller's SETCONF may change two options at once (FALSE: one; a bound for model checking)
+  NoDef             \* list options Tor has no built-in default for (unset = no values): e.g. TransPort, unlike SocksPort
 
 Options == Scalars \cup Lists
-Def(o) == IF o \in Scalars THEN <<"dflt">> ELSE <<"d1">>     \* Tor's built-in default for an unset option
+Def(o) == IF o \in Scalars THEN <<"dflt">> ELSE IF o \in NoDef THEN <<>> ELSE <<"d1">>     \* Tor's built-in default for an unset option
 
 VARIABLES
   phase,    \* "start" | "attached"
